@@ -49,8 +49,12 @@ func WalkNodes(root *html.Node, fnVisit func(*html.Node) bool, fnExit func(*html
 		return
 	}
 
-	for child := root.FirstChild; child != nil; child = child.NextSibling {
+	for child := root.FirstChild; child != nil; {
+		// The visitor may detach the child from the tree (e.g. when an anchor is
+		// replaced by its text), so fetch the sibling before visiting it.
+		next := child.NextSibling
 		WalkNodes(child, fnVisit, fnExit)
+		child = next
 	}
 
 	if fnExit != nil {
